@@ -55,10 +55,13 @@ def queries(ctx):
         else:
             ns = tuple(range(1, 18))
         ovls = {1: (0, 1, 2), 2: (0,), 3: (0, 1), 4: (0, 1), 5: (0, 1), 6: (0, 1, 2), 7: (0, 1), 8: (0, 1, 2, 3)}[cls]
+        vector = bool(re.search(r"\bvr\[", src))          # kernel uses vector moves: its alignment prologue depends on the destination address
+        if vector:
+            ns = tuple(ns) + ((16, 19) if quick else (20, 32, 35))      # the 16-limb main loop of the vector copy kernels
         for n in ns:
-            for ovl in (ovls if (not quick or n in (3, 4, 9, 8)) else ovls[:1]):
-                q = Query("%s.%s.n%d.ovl%d" % (tag, name, n, ovl), "C14_kernel.c", TWIN[cls] + BASE,
-                          {"CLS": cls, "SUB": sub, "N": n, "OVL": ovl, "VK_SRC": '"%s"' % cp}, unwind=n + 4 if cls == 2 else n + 6, hunwind=330,
+            for ovl, aln in [(v, a) for v in (ovls if (not quick or n in (3, 4, 9, 8)) else ovls[:1]) for a in ((0, 1, 2, 3) if vector and cls == 3 else (0,))]:
+                q = Query("%s.%s.n%d.ovl%d" % (tag, name, n, ovl) + (".aln%d" % aln if vector and cls == 3 else ""), "C14_kernel.c", TWIN[cls] + BASE,
+                          {"CLS": cls, "SUB": sub, "N": n, "OVL": ovl, "ALN": aln, "VK_SRC": '"%s"' % cp}, unwind=n + 4 if cls == 2 else n + 6, hunwind=330,
                           timeout=300 if quick else 900, funcs=[k + ":mpn_" + name, TWIN[cls][0] + " (portable twin)"], domain="D-FULL")
                 q.asm_units = [k]
                 qs.append(q)
@@ -75,7 +78,7 @@ def extra_cov(ctx, done):
 
 
 ASSUMPTIONS = [
- "the kernel text is preprocessed with `yasm -e` and the tree's yasm_mac.inc, then translated instruction by instruction into C with Intel SDM semantics for the integer core (mov lea add adc sub sbb cmp and or xor test inc dec neg not shl shr sar shld shrd rcl/rcr-by-1 bt push pop ret jcc cmovcc setcc xchg mul imul mulx adcx adox clc stc bsr bsf); an unknown mnemonic or operand form makes the kernel 'not encoded'",
+ "the kernel text is preprocessed with `yasm -e` and the tree's yasm_mac.inc, then translated instruction by instruction into C with Intel SDM semantics for the integer core (mov lea add adc sub sbb cmp and or xor test inc dec neg not shl shr sar shld shrd rcl/rcr-by-1 bt push pop ret jcc cmovcc setcc xchg mul imul mulx adcx adox clc stc bsr bsf) and whole-register vector moves (movdqu/movdqa/vmovdqu/vmovdqa/vzeroupper on a 16 x 4-lane register file, alignment of the aligned forms asserted); an unknown mnemonic or operand form makes the kernel 'not encoded'",
  "registers other than the argument registers and the flags start with arbitrary contents; memory is a flat limb array whose every word is symbolic; every access must be 8-byte aligned and inside the array; at ret the callee-saved registers and rsp must be restored (System V ABI)",
  "the portable twin is the real mpn/generic unit compiled by goto-cc (for mpn_karasub / mpn_karaadd the static routine of mpn/generic/mul_n.c, included into the harness); operand length and overlap layout are concrete per query",
  "counterexamples are replayed against the real kernel assembled by yasm from the same file",
@@ -83,6 +86,6 @@ ASSUMPTIONS = [
 MANIFEST = {
  "engine": "asm2c",
  "text": "Translation validation of x86-64 assembly kernels: every yasm (Intel syntax) kernel under mpn/x86_64/** whose routine has a harness class (add_n, sub_n, karasub, karaadd, copyi, copyd, com_n, the eight logic operations, sumdiff_n, nsumdiff_n, lshift, rshift, lshift1, rshift1, addadd_n, addsub_n, subadd_n) and whose instructions the translator covers is translated to C from the tree on every run and compared by CBMC with the portable C implementation of the same routine for every enumerated operand length and overlap layout and all limb contents (result limbs, returned carry, nothing written outside the destination, callee-saved registers restored). It does not matter whether the host CPU can execute the kernel.",
- "note": "Bounds: lengths 1..9 (karasub 8..11) quick, 1..17 (8..19) thorough. Outside: the AT&T-syntax .asm kernels (m4; not parsed), kernels using SSE/AVX or other instructions the translator lacks (listed per run as not encoded), kernel classes without a harness (mul_1/addmul_1/mul_basecase/redc_1/divexact..., listed per run), the fat dispatcher, the per-CPU tuning tables and the --enable-alloca/--enable-assert build variants (not checked by this check).",
+ "note": "Bounds: lengths 1..9 (karasub 8..11) quick, 1..17 (8..19) thorough. Outside: the AT&T-syntax .asm kernels (m4; not parsed), kernels using SSE/AVX arithmetic (anything beyond whole-register moves) or other instructions the translator lacks (listed per run as not encoded), kernel classes without a harness (mul_1/addmul_1/mul_basecase/redc_1/divexact..., listed per run), the fat dispatcher, the per-CPU tuning tables and the --enable-alloca/--enable-assert build variants (not checked by this check).",
  "technique": "own x86-64 (yasm/Intel syntax) to C translator with ISA semantics regenerated from the tree on every run, bounded symbolic execution of translation and portable C twin with CBMC (SAT) for all limb contents at concrete lengths, native replay against the yasm-assembled real kernel",
 }
